@@ -340,8 +340,132 @@ func runC09(e *Env) {
 		prober.Close()
 		srv.close()
 	}
+	tMain := time.Now()
+	c09Bursts(e, addrs)
+	e.R.SetExtra("burst_and_steered_part_ms", time.Since(tMain).Milliseconds())
 	e.R.SetExtra("runs_with_two_or_more_handshakes", multi.Load())
 	e.R.SetExtra("completion_order_classes", orderClasses)
 	e.R.SetExtra("hook_hits", verifhook.AllHits())
 	e.R.Require(multi.Load() >= int64(e.Pick(8, 60)), fmt.Sprintf("only %d runs had >= 2 completed handshakes", multi.Load()))
+}
+
+
+// c09Bursts: many short ProbeAndDial calls in which exactly one candidate is
+// reachable and the others end at once (unparsable) or never (closed port),
+// several calls at a time. The end of the last attempt, the hand-over of the
+// winner and the start of the "all attempts done" watcher then fall together
+// in many different orders; every call must return the connection.
+func c09Bursts(e *Env, addrs []string) {
+	srv, err := newC09Server()
+	if err != nil {
+		e.R.Inconcl("listener: " + err.Error())
+		return
+	}
+	defer srv.close()
+	port := fmt.Sprint(srv.port())
+	good := net.JoinHostPort(addrs[0], port)
+	junk := func(n int) []string {
+		out := make([]string, n)
+		for i := range out {
+			out[i] = fmt.Sprintf("not an address %d", i)
+		}
+		return out
+	}
+	classes := []struct {
+		name  string
+		cands []string
+	}{
+		{"burst:single-reachable", []string{good}},
+		{"burst:one-reachable+400-unparsable", append(junk(400), good)},
+		{"burst:one-reachable+3-unparsable", append(junk(3), good)},
+		{"burst:one-reachable+closed-port+unparsable", []string{net.JoinHostPort(addrs[0], "9"), "x", good}},
+	}
+	n := e.Pick(400, 4000)
+	tBurst := time.Now()
+	var failed [4]atomic.Int64
+	var ok atomic.Int64
+	// one prober (one socket) per worker, as one application process has
+	pool := make(chan *ice.Prober, 8)
+	for i := 0; i < 8; i++ {
+		pr, err := ice.NewProber(ice.ProberConfig{StunServers: []string{"127.0.0.1:9"}}, vk.Quiet)
+		if err != nil {
+			e.R.Inconcl("prober: " + err.Error())
+			return
+		}
+		defer pr.Close()
+		pool <- pr
+	}
+	vk.ParallelDo(n, 8, func(i int) {
+		c := classes[i%len(classes)]
+		prober := <-pool
+		defer func() { pool <- prober }()
+		ctx, cancel := context.WithTimeout(context.Background(), 8*time.Second)
+		defer cancel()
+		conn, err := prober.ProbeAndDial(ctx, c.cands, quictransport.ClientConfig(), vk.QUICConfig(false, 5*time.Second), nil)
+		e.R.Eval()
+		if err != nil {
+			if ctx.Err() != nil {
+				e.R.Inconcl(c.name + ": deadline reached: " + err.Error())
+				return
+			}
+			if failed[i%len(classes)].Add(1) <= 2 {
+				e.R.Violate("dial:no-connection:"+c.name, fmt.Sprintf("ProbeAndDial failed although one candidate was reachable: %v", err), map[string]any{"class": c.name, "candidates": len(c.cands), "call": i}, nil)
+			}
+			return
+		}
+		ok.Add(1)
+		_ = conn.CloseWithError(0, "")
+	})
+	for _, c := range classes {
+		e.R.Distinct(c.name)
+	}
+	e.R.SetExtra("burst_part_ms", time.Since(tBurst).Milliseconds())
+	// steered orders at the two scheduling points around the attempt spawn loop
+	// (serial: the hooks are process-global)
+	steered := 0
+	for rep := 0; rep < e.Pick(24, 120); rep++ {
+		kind := []string{"steered:caller-reaches-select-after-the-only-attempt-won-and-all-ended", "steered:watcher-runs-before-the-attempts-start"}[rep%2]
+		succeeded := make(chan struct{})
+		var once sync.Once
+		if rep%2 == 0 {
+			verifhook.Set("ice.dial.succeeded", func(verifhook.Event) { once.Do(func() { close(succeeded) }) })
+			verifhook.Set("ice.probe.beforeSelect", func(verifhook.Event) {
+				// hold the caller until the winner has been produced and its
+				// goroutine has ended (the watcher then reports "all done")
+				select {
+				case <-succeeded:
+					time.Sleep(30 * time.Millisecond)
+				case <-time.After(3 * time.Second):
+				}
+			})
+		} else {
+			verifhook.Set("ice.probe.beforeSpawn", func(verifhook.Event) { time.Sleep(20 * time.Millisecond) })
+		}
+		prober := <-pool
+		ctx, cancel := context.WithTimeout(context.Background(), 8*time.Second)
+		conn, err := prober.ProbeAndDial(ctx, []string{good}, quictransport.ClientConfig(), vk.QUICConfig(false, 5*time.Second), nil)
+		hits := verifhook.Hits("ice.probe.beforeSelect") + verifhook.Hits("ice.probe.beforeSpawn")
+		verifhook.Set("ice.dial.succeeded", nil)
+		verifhook.Set("ice.probe.beforeSelect", nil)
+		verifhook.Set("ice.probe.beforeSpawn", nil)
+		e.R.Eval()
+		switch {
+		case err != nil && ctx.Err() != nil:
+			e.R.Inconcl(kind + ": deadline reached: " + err.Error())
+		case err != nil:
+			e.R.Violate("dial:no-connection:"+kind, fmt.Sprintf("ProbeAndDial failed although its only candidate was reachable and the handshake completed: %v", err), map[string]any{"class": kind, "rep": rep}, nil)
+		default:
+			_ = conn.CloseWithError(0, "")
+			if hits > 0 {
+				steered++
+			}
+		}
+		cancel()
+		pool <- prober
+		e.R.Distinct(kind)
+	}
+	e.R.SetExtra("steered_calls_that_returned_the_connection", steered)
+	e.R.Require(steered >= e.Pick(12, 60) || len(e.R.Violations) > 0, fmt.Sprintf("only %d steered calls reached their hook", steered))
+	e.R.SetExtra("burst_calls_that_returned_the_connection", ok.Load())
+	e.R.Require(ok.Load()+failed[0].Load()+failed[1].Load()+failed[2].Load()+failed[3].Load() >= int64(e.Pick(300, 3000)), "too few burst calls reached a verdict")
 }
